@@ -50,7 +50,7 @@ pub proof fn filter_tag_numbers_rfc4511()
 //@ insert before "Tag::Sequence(Sequence {\n        class: TagClass::Context,\n        id: EXT_MATCH,"
     proof {
         lemma_trees_len(inner@, inner@.len());
-        assert(trees(inner@, inner@.len()) =~= mra_kids(match mrule { Some(s) => Some(s@), None => None }, match attr { Some(s) => Some(s@), None => None }, value@, dn));
+        assert(trees(inner@, inner@.len()) =~= mra_kids(match mrule { Some(s) => Some(s@), None => None }, match attr { Some(s) => Some(s@), None => None }, value@, dn)); //# C08.extensible_match_children_rule_type_value_dn_in_rfc4511_order
     } //# C08.extensible_match_components_in_order
 //@ spec
     ensures
